@@ -62,6 +62,19 @@ def warmN (s : RS) (a1 : Nat → Rat) : Rat := rsum (fun i => if 0 < clipv s a1 
 /-- clipping changed at least one coefficient -/
 def anyClip (s : RS) (a1 : Nat → Rat) : Prop := ∃ k, k < s.n ∧ clipv s a1 k ≠ a1 k
 
+/-- `std::abs(sumPos - sumNeg)` -/
+def absDiff (P N : Rat) : Rat := if P - N < 0 then -(P - N) else P - N
+
+theorem absDiff_eq_abs (P N : Rat) : absDiff P N = |P - N| := by
+  unfold absDiff; split
+  · rename_i h; rw [abs_of_neg h]
+  · rename_i h; rw [abs_of_nonneg (not_lt.mp h)]
+
+/-- the trainer restores the equality constraint: clipping changed a coefficient, or the positive and the negative side of
+the (clipped) start vector differ by more than `1e-12` relative (repair of F-C07-9) -/
+def mustBalance (s : RS) (a1 : Nat → Rat) : Prop :=
+  anyClip s a1 ∨ absDiff (warmP s a1) (warmN s a1) > 1 / 1000000000000 * (warmP s a1 + warmN s a1)
+
 theorem anyClip_iff (s : RS) (a1 : Nat → Rat) :
     ((List.range s.n).any fun i => !(smax (smin (a1 i) (s.U i)) (s.L i) == a1 i)) = true ↔ anyClip s a1 := by
   unfold anyClip clipv
@@ -77,14 +90,16 @@ open Classical in
 /-- pointwise description of the warm-start vector -/
 theorem warmStartVector_apply (s : RS) (a1 : Nat → Rat) (bias : Bool) (k : Nat) :
     warmStartVector s a1 bias k =
-      if bias = false then clipv s a1 k else if ¬ anyClip s a1 ∨ warmP s a1 = warmN s a1 then clipv s a1 k else
+      if bias = false then clipv s a1 k else if ¬ mustBalance s a1 ∨ warmP s a1 = warmN s a1 then clipv s a1 k else
       if (0 < clipv s a1 k ↔ warmN s a1 < warmP s a1) ∧ clipv s a1 k ≠ 0 then clipv s a1 k * warmF (warmP s a1) (warmN s a1)
       else clipv s a1 k := by
   unfold warmStartVector
   dsimp only
   rw [warm_sums (fun k => smax (smin (a1 k) (s.U k)) (s.L k)) s.n]
   show (if (!bias) = true then clipv s a1 else
-      if (!((List.range s.n).any fun i => !(smax (smin (a1 i) (s.U i)) (s.L i) == a1 i)) || (warmP s a1 == warmN s a1)) = true
+      if (!(((List.range s.n).any fun i => !(smax (smin (a1 i) (s.U i)) (s.L i) == a1 i)) ||
+            decide ((if warmP s a1 - warmN s a1 < (0.0 : Rat) then -(warmP s a1 - warmN s a1) else warmP s a1 - warmN s a1)
+              > (1.0e-12 : Rat) * (warmP s a1 + warmN s a1))) || (warmP s a1 == warmN s a1)) = true
       then clipv s a1 else
       fun k => if ((decide (clipv s a1 k > (0.0 : Rat)) == decide (warmP s a1 > warmN s a1)) && !(clipv s a1 k == (0.0 : Rat))) = true
         then clipv s a1 k * (if decide (warmP s a1 > warmN s a1) = true then warmN s a1 / warmP s a1 else warmP s a1 / warmN s a1)
@@ -93,19 +108,34 @@ theorem warmStartVector_apply (s : RS) (a1 : Nat → Rat) (bias : Bool) (k : Nat
   · simp
   · simp only [Bool.not_true, Bool.false_eq_true, if_false]
     rw [if_neg (show ¬ ((true : Bool) = false) by decide)]
-    have hguard : ((!((List.range s.n).any fun i => !(smax (smin (a1 i) (s.U i)) (s.L i) == a1 i)) || (warmP s a1 == warmN s a1)) = true)
-        ↔ (¬ anyClip s a1 ∨ warmP s a1 = warmN s a1) := by
-      rw [Bool.or_eq_true, beq_iff_eq, Bool.not_eq_true', ← anyClip_iff]
+    have hguard : ((!(((List.range s.n).any fun i => !(smax (smin (a1 i) (s.U i)) (s.L i) == a1 i)) ||
+            decide ((if warmP s a1 - warmN s a1 < (0.0 : Rat) then -(warmP s a1 - warmN s a1) else warmP s a1 - warmN s a1)
+              > (1.0e-12 : Rat) * (warmP s a1 + warmN s a1))) || (warmP s a1 == warmN s a1)) = true)
+        ↔ (¬ mustBalance s a1 ∨ warmP s a1 = warmN s a1) := by
+      have hA := anyClip_iff s a1
+      have hB : decide ((if warmP s a1 - warmN s a1 < (0.0 : Rat) then -(warmP s a1 - warmN s a1) else warmP s a1 - warmN s a1)
+              > (1.0e-12 : Rat) * (warmP s a1 + warmN s a1)) = true
+          ↔ absDiff (warmP s a1) (warmN s a1) > 1 / 1000000000000 * (warmP s a1 + warmN s a1) := by
+        rw [decide_eq_true_iff, lit0, litE]; rfl
+      unfold mustBalance
+      rw [Bool.or_eq_true, beq_iff_eq, Bool.not_eq_true', Bool.or_eq_false_iff, ← hA, ← hB]
       constructor
-      · rintro (h | h)
-        · exact Or.inl (by rw [h]; simp)
+      · rintro (⟨h1, h2⟩ | h)
+        · exact Or.inl (fun h' => h'.elim (fun e => by rw [h1] at e; exact absurd e (by decide))
+            (fun e => by rw [h2] at e; exact absurd e (by decide)))
         · exact Or.inr h
       · rintro (h | h)
-        · left; cases hx : ((List.range s.n).any fun i => !(smax (smin (a1 i) (s.U i)) (s.L i) == a1 i))
-          · rfl
-          · exact absurd hx h
+        · left
+          constructor
+          · cases hx : ((List.range s.n).any fun i => !(smax (smin (a1 i) (s.U i)) (s.L i) == a1 i))
+            · rfl
+            · exact absurd (Or.inl hx) h
+          · cases hx : decide ((if warmP s a1 - warmN s a1 < (0.0 : Rat) then -(warmP s a1 - warmN s a1) else warmP s a1 - warmN s a1)
+              > (1.0e-12 : Rat) * (warmP s a1 + warmN s a1))
+            · rfl
+            · exact absurd (Or.inr hx) h
         · exact Or.inr h
-    by_cases hG : (¬ anyClip s a1 ∨ warmP s a1 = warmN s a1)
+    by_cases hG : (¬ mustBalance s a1 ∨ warmP s a1 = warmN s a1)
     · rw [if_pos (hguard.2 hG), if_pos hG]
     · rw [if_neg (fun h => hG (hguard.1 h)), if_neg hG]
       have hcond : (((decide (clipv s a1 k > (0.0 : Rat)) == decide (warmP s a1 > warmN s a1)) && !(clipv s a1 k == (0.0 : Rat))) = true)
